@@ -3,6 +3,7 @@
    the metric formulas are the definitions regenerated from metrics.py on every run (Gen/Generated.v),
    instantiated with the model kernels over the reals. *)
 From TN Require Import Proofs.DotP Proofs.ToolsP Proofs.GenP Proofs.GenInst Alg.Inst Alg.InstR Gen.Generated Harness.HBase.
+From TN Require Import Proofs.HsumP Proofs.GenHsumInst.
 
 Section C06_ring.
 Variable K : Ops.
@@ -37,6 +38,11 @@ Theorem C06_wsum : forall k w (cs : net) c idx i,
   nth_error cs k = Some c -> nth_error idx k = Some i ->
   eval (wsum_net k w cs) idx = sumn (dm c) (fun j => w j * eval cs (upd k idx j)).
 Proof. exact (wsum_sound K Kth). Qed.
+(* hadamard_sum([t_1..t_M]): the sum over all entries of the entrywise product (model: kernel `*` then kernel dot) *)
+Theorem C06_hadamard_sum : forall (l : list net) (v : K) sh,
+  Forall (fun x => good K x /\ sshape x = sh) l -> hsum_net l = Some v ->
+  v = sumidx sh (fun idx => prod_evals l idx).
+Proof. exact (hsum_sound K Kth). Qed.
 End C06_ring.
 
 Section C06_metrics.
@@ -107,6 +113,25 @@ Proof.
   - intros; apply okR_sadd; auto.
   - apply okR_dot; auto.
 Qed.
+(* moments, as metrics.py composes them from hadamard_sum (generated), uniform weights; numel depends on the shape only *)
+Hypothesis H_numel_sh : forall a b, ok a -> ok b -> r_numel a = r_numel b.
+Theorem C06_raw_moment : forall (a : net) (k : nat), ok a -> (0 < k)%nat ->
+  gen_metrics_raw_moment net r_numel r_hsum a k = S (fun i => eval a i ^ k) / r_numel a.
+Proof.
+  intros a k Ha Hk. apply (gen_raw_moment_spec net r_numel (@eval RO) sh ok r_hsum); auto.
+  intros l Hne Hl. apply (okR_hsum sh); assumption.
+Qed.
+
+Theorem C06_normalized_moment : forall (a : net) (k : nat), ok a -> (0 < k)%nat ->
+  gen_metrics_normalized_moment net r_dot r_sadd r_mean r_numel r_hsum a k =
+  (S (fun i => (eval a i - S (eval a) / r_numel a) ^ k) / r_numel a) /
+  Rpower (S (fun i => sq (eval a i - S (eval a) / r_numel a)) / r_numel a) (INR k / 2).
+Proof.
+  intros a k Ha Hk. apply (gen_normalized_moment_spec net r_dot r_sadd r_mean r_numel (@eval RO) sh ok); auto.
+  - intros; apply okR_sadd; auto.
+  - apply okR_dot; auto.
+  - intros l Hne Hl. apply (okR_hsum sh); assumption.
+Qed.
 End C06_metrics.
 
 (* non-vacuity *)
@@ -131,3 +156,6 @@ Print Assumptions C06_relative_error.
 Print Assumptions C06_rmse.
 Print Assumptions C06_var.
 Print Assumptions C06_r_squared.
+Print Assumptions C06_hadamard_sum.
+Print Assumptions C06_raw_moment.
+Print Assumptions C06_normalized_moment.
